@@ -242,6 +242,9 @@ def main(argv):
         return 0 if ok else 1
     if cmd == 'replay':
         return replay(argv[1])
+    if cmd == 'refcheck':
+        from . import refcheck
+        return refcheck.main(argv[1:])
     if cmd == 'selftest':
         from . import selftest
         return selftest.main(argv[1:])
